@@ -60,12 +60,21 @@ func (config Config) New(session *packet.Session) (h *Handler, err error) {
 
 // Close the handler and terminate all internal goroutines
 func (h *Handler) Close() error {
+	h.arpMutex.Lock() // closed is shared with ProcessPacket, Scan and the spoof loops
+	defer h.arpMutex.Unlock()
 	if h.closed {
 		return nil
 	}
 	h.closed = true
 	close(h.closeChan) // this will exit all background goroutines
 	return nil
+}
+
+// isClosed reads the closed flag under the handler lock.
+func (h *Handler) isClosed() bool {
+	h.arpMutex.Lock()
+	defer h.arpMutex.Unlock()
+	return h.closed
 }
 
 // PrintTable print the ARP table to stdout.
@@ -256,7 +265,7 @@ func (h *Handler) Scan() error {
 			continue
 		}
 
-		if h.closed { // return if Close() is called when we are in the loop
+		if h.isClosed() { // return if Close() is called when we are in the loop
 			return nil
 		}
 		err := h.Request(ip)
@@ -302,7 +311,7 @@ func (h *Handler) ProcessPacket(frame packet.Frame) error {
 	}
 
 	// Close() was called: no spoofing on the receive path either
-	if h.closed {
+	if h.isClosed() {
 		return nil
 	}
 
